@@ -138,13 +138,13 @@ def shapes(quick=True):
     # divergent exit expectations
     out.append(({"types": [], "init": [asg("x", c(0)), asg("y", c(1))], "guard": eq("x", 0),
                  "body": [asg("y", ("mul", c(2), v("y"))), bern("x", F(1, 2))]},
-                [("E", {"y": 1})], "divergent-linear"))
+                [("E", {"y": 1}), ("c", 2, {"y": 1})], "divergent-linear"))
     out.append(({"types": [], "init": [asg("x", c(0)), asg("y", c(1))], "guard": eq("x", 0),
                  "body": [asg("y", ("mul", c(3), v("y"))), bern("x", F(1, 2))]},
                 [("E", {"y": 1})], "divergent-geometric"))
     out.append(({"types": [], "init": [asg("x", c(0)), asg("y", c(1))], "guard": eq("x", 0),
                  "body": [asg("y", ("mul", c(F(3, 2)), v("y"))), bern("x", F(1, 2))]},
-                [("E", {"y": 1}), ("E", {"y": 2})], "finite-mean-divergent-second-moment"))
+                [("E", {"y": 1}), ("E", {"y": 2}), ("c", 3, {"y": 1})], "finite-mean-divergent-second-moment"))
     # never terminates once started / guard false from the start
     out.append(({"types": [], "init": [bern("x", F(1, 3)), asg("y", c(0))], "guard": eq("x", 0),
                  "body": [asg("y", ("add", v("y"), c(1)))]},
